@@ -16,8 +16,15 @@ import (
 
 const repoMod = "github.com/jamespfennell/gtfs"
 
-var repoDir = "/repo"
-var verifDir = "/verif"
+var repoDir = envOr("VERIF_REPO", "/repo")
+var verifDir = envOr("VERIF_DIR", "/verif")
+
+func envOr(k, d string) string {
+	if v := os.Getenv(k); v != "" {
+		return v
+	}
+	return d
+}
 
 type Program struct {
 	Prog   *ssa.Program
